@@ -260,3 +260,85 @@ func vfH_c19_template() {
 	vfAssert(string(in) == string(saved), "input-unchanged")
 	vfCover("done")
 }
+
+type pTmplRep struct {
+	Left  []string   `protobuf:"bytes,1,rep,name=left"`
+	Right []pTmplSub `protobuf:"bytes,2,rep,name=right"`
+	Third []string   `protobuf:"bytes,3,rep,name=third"`
+	Tail  int64      `protobuf:"varint,4,opt,name=tail"`
+}
+
+// H19-tmplrep: a template over SEVERAL repeated fields (strings and nested messages) with vfLen / vfLen2 elements each
+// (1..4: the element lists pass through every slice capacity class of the parser's scratch list), followed by a scalar:
+// every templated list is replaced by exactly its own template elements, the input is unchanged.
+func vfH_c19_tmplrep() {
+	k, m := vfLen, vfLen2
+	var ds [8]byte
+	for i := range ds {
+		ds[i] = vfByte()
+		vfAssume(ds[i] >= '1')
+		vfAssume(ds[i] <= '9')
+	}
+	tmpl := append([]byte(nil), `{"left":[`...)
+	for i := 0; i < k; i++ {
+		if i > 0 {
+			tmpl = append(tmpl, ',')
+		}
+		tmpl = append(tmpl, '"', 'l', ds[i], '"')
+	}
+	tmpl = append(tmpl, `],"right":[`...)
+	for i := 0; i < m; i++ {
+		if i > 0 {
+			tmpl = append(tmpl, ',')
+		}
+		tmpl = append(tmpl, `{"n":`...)
+		tmpl = append(tmpl, ds[4+i], '}')
+	}
+	tmpl = append(tmpl, `],"third":[`...)
+	for i := 0; i < k; i++ {
+		if i > 0 {
+			tmpl = append(tmpl, ',')
+		}
+		tmpl = append(tmpl, '"', 't', ds[i], '"')
+	}
+	tmpl = append(tmpl, `],"tail":`...)
+	tmpl = append(tmpl, ds[7], '}')
+	savedT := append([]byte(nil), tmpl...)
+	rw, err := ParseRewriteTemplate(TypeOf(reflect.TypeOf(pTmplRep{})), tmpl)
+	vfAssert(err == nil, "template-parses")
+	if err != nil {
+		return
+	}
+	orig := pTmplRep{Left: []string{"x"}, Right: []pTmplSub{{N: 9}}, Third: []string{"y"}, Tail: 3}
+	in, err := Marshal(orig)
+	vfAssert(err == nil, "marshal-ok")
+	saved := append([]byte(nil), in...)
+	out, err := rw.Rewrite(nil, in)
+	vfAssert(err == nil, "rewrite-ok")
+	if err != nil {
+		return
+	}
+	var got pTmplRep
+	err = Unmarshal(out, &got)
+	vfAssert(err == nil, "output-decodes")
+	if err == nil {
+		vfAssert(len(got.Left) == k, "left-count")
+		vfAssert(len(got.Right) == m, "right-count")
+		vfAssert(len(got.Third) == k, "third-count")
+		if len(got.Left) == k && len(got.Third) == k {
+			for i := 0; i < k; i++ {
+				vfAssert(got.Left[i] == string([]byte{'l', ds[i]}), "left-elements")
+				vfAssert(got.Third[i] == string([]byte{'t', ds[i]}), "third-elements")
+			}
+		}
+		if len(got.Right) == m {
+			for i := 0; i < m; i++ {
+				vfAssert(got.Right[i].N == int64(ds[4+i]-'0'), "right-elements")
+			}
+		}
+		vfAssert(got.Tail == int64(ds[7]-'0'), "tail-replaced")
+	}
+	vfAssert(string(in) == string(saved), "input-unchanged")
+	vfAssert(string(tmpl) == string(savedT), "template-unchanged")
+	vfCover("done")
+}
